@@ -87,6 +87,16 @@ PROFILES = {
                 p_sequenced=0.9, max_seq=3, p_app_sequenced=0.9, max_app_seq=3, n_programs=[2, 3, 4], n_groups=[1, 2, 3],
                 p_managed=0.8, supvisors_failure_strategies=['CONTINUE'], p_autostart=0.1, autorestart=['false'],
                 need_timeout=True, p_absent=0.05, p_disabled=0.0),
+    'C10': dict(BASE, no_restart_storm=True, max_faults=4, min_faults=1,
+                ops={'start_application': 3, 'stop_application': 3, 'restart_application': 2, 'start_process': 2,
+                     'stop_process': 2, 'restart_process': 1}, min_ops=2, max_ops=8,
+                fault_weights={'crash': 2, 'restart': 2, 'child_exit': 1, 'stall': 0.5}, p_trigger=0.5,
+                trigger_states=['DISTRIBUTION', 'OPERATION', 'CONCILIATION'],
+                child_kinds={'ok': 0.45, 'exit_early': 0.15, 'backoff_then_ok': 0.1, 'exec_fail': 0.05,
+                             'ignore_stop': 0.15, 'slow_stop': 0.1},
+                startsecs=[0, 1, 2, 4, 8, 12], stopwaitsecs=[1, 2, 4, 8, 12], startretries=[0, 1, 2, 3],
+                p_wait_exit=0.0, event_drop=True, supvisors_failure_strategies=['CONTINUE'], need_timeout=True,
+                quiesce=120.0),
     'C02': dict(BASE, max_faults=5, ops='fsm'),
     'C16': dict(BASE, max_faults=5, ops='all', p_absent=0.3, p_shared_node=0.5),
 }
@@ -104,7 +114,10 @@ def build(prop, seed):
     from . import ops
     plan += ops.gen_ops(rng, prof, config)
     t_end = prof['fault_window'][1] + prof['quiesce'] + config['supvisors']['synchro_timeout']
-    return {'prop': prop, 'seed': seed, 'config': config, 'plan': plan, 't_end': t_end}
+    scen = {'prop': prop, 'seed': seed, 'config': config, 'plan': plan, 't_end': t_end}
+    if prof.get('event_drop'):
+        scen['event_drop'] = {'rate': gen.pick(rng, [0.0, 0.05, 0.2, 0.5, 0.9])}
+    return scen
 
 
 def observers_for(prop, scen):
@@ -124,6 +137,9 @@ def observers_for(prop, scen):
     elif prop == 'C09':
         from oracles import stops
         obs.append(stops.StopRequests())
+    elif prop == 'C10':
+        from oracles import jobs
+        obs.append(jobs.JobTermination())
     elif prop == 'C05':
         from oracles import conciliation
         obs.append(conciliation.Conciliation())
@@ -137,7 +153,36 @@ def observers_for(prop, scen):
 
 
 def make_run(prop, scen):
-    return Run(scen['config'], scen['plan'], scen['seed'], observers=observers_for(prop, scen), t_end=scen['t_end'])
+    run = Run(scen['config'], scen['plan'], scen['seed'], observers=observers_for(prop, scen), t_end=scen['t_end'])
+    drop = scen.get('event_drop')
+    if drop:
+        install_event_drop(run, drop)
+    return run
+
+
+def install_event_drop(run, drop):
+    """ C10 profile only: PROCESS publications silently lost (not producible by TCP, but C10 is quantified over it). """
+    import json
+    sim = run.sim
+    rate = drop['rate']
+
+    def rpc_filter(sim_, rec, args):
+        if rec['method'] != 'supervisor.sendRemoteCommEvent' or rec['src'] == rec['dst']:
+            return None
+        try:
+            if args[0] != 'SupvisorsPublication':
+                return None
+            _origin, (header, body) = json.loads(args[1])
+        except Exception:  # noqa
+            return None
+        if header != 1:
+            return None
+        r = sim.rng('event_drop', rec['src'], rec['dst'])
+        if r.random() < rate:
+            run.fault_counts['event_drop'] += 1
+            return 'drop'
+        return None
+    sim.rpc_filter = rpc_filter
 
 
 def describe(prop):
